@@ -175,7 +175,7 @@ func onceWrapper(f *ssa.Function) (int, bool) {
 }
 
 func c12(p *core.Prog, r *core.Report) {
-	r.Explain = "Decides, for every function of package tchannel that holds a *Frame (parameter, pool Get, channel receive, call result, field load), on every path (path-sensitive on the boolean / nil results that guard hand-back, with inferred callee summaries and in-place analysis of closures): (R1) no path hands a frame back or over twice (pool Release, channel send, go hand-over, callee that consumes); (R2) no read/write/pass of a frame after it was handed back; (R3) the handler result protocol is consistent: the reader loop's `if releaseFrame {Release}` is checked against every (result, state) pair each handler can produce; (R4) a frame given to parseInboundFragment (alias owner = the fragment, released by its idempotent done()) is not also released directly once a call that can reach done() has intervened; the done() latch itself is checked; (R5) frames obtained locally are handed back or handed over on every exit except the reviewed fault-path exits. A leaking exit that returns a definitely non-nil error is a fault path by construction and tolerated. After a hand-back, reads through views of the frame (payload slices, read buffers wrapping them) count as uses."
+	r.Explain = "Decides, for every function of package tchannel that holds a *Frame (parameter, pool Get, channel receive, call result, field load), on every path (path-sensitive on the boolean / nil results that guard hand-back, with inferred callee summaries and in-place analysis of closures): (R1) no path hands a frame back or over twice (pool Release, channel send, go hand-over, callee that consumes); (R2) no read/write/pass of a frame after it was handed back; (R3) the handler result protocol is consistent: the reader loop's `if releaseFrame {Release}` is checked against every (result, state) pair each handler can produce; (R4) a frame given to parseInboundFragment (alias owner = the fragment, released by its idempotent done()) is not also released directly once a call that can reach done() has intervened; the done() latch itself is checked; (R5) frames obtained locally are handed back or handed over on every exit except the reviewed fault-path exits. A leaking exit that returns a definitely non-nil error is a fault path by construction and tolerated. After a hand-back, reads through views of the frame (payload slices, read buffers wrapping them) count as uses. A message's pooled objects are released only by their owners; completing a response does not release the request's frames."
 	r.NotDecided = "leaks on fault paths (tolerated by the property; listed in evidence); behaviour of user-supplied pools; cross-goroutine ordering between a send on a channel and the receiver's release (ownership is transferred at the send)."
 	r.Rule("C12-R1", "E2 ownership", 20, "no double hand-back / hand-over of a frame on any path")
 	r.Rule("C12-R2", "E2 ownership", 20, "no use of a frame after hand-back")
